@@ -40,13 +40,13 @@ Print Assumptions skip_total_progress.
    exhausted, at any depth budget; at budget 0 the reader refuses (SkipDepth) *)
 Theorem skip_depth_terminates : forall d ft bs,
   skip d ft bs <> Err e_fuel /\ skip 0 ft bs = Err e_inv.
-Proof. intros d ft bs. split; [apply skip_never_out_of_fuel|apply skip_depth_zero]. Qed.
+Proof. exact skip_terminates_and_budget. Qed.
 Print Assumptions skip_depth_terminates.
 
 (* the two footer decoders terminate on every byte string *)
 Theorem footer_decoders_total : forall bs,
   meta_probe bs <> MErr e_fuel /\ schema_probe bs <> Err e_fuel.
-Proof. intros bs. split; [apply meta_probe_never_out_of_fuel|apply schema_probe_never_out_of_fuel]. Qed.
+Proof. exact footer_decoders_never_out_of_fuel. Qed.
 Print Assumptions footer_decoders_total.
 
 (* ---- varints *)
@@ -98,7 +98,7 @@ Print Assumptions thrift_vec_len_le_input_except_known.
 Theorem avro_vlq_bounded : forall bs,
   vlq_long bs 0 0 <> VPanic /\
   forall z r, vlq_long bs 0 0 = VVal z r -> (length r < length bs /\ length bs - length r <= 10)%nat.
-Proof. intros bs. split; [apply vlq_long_start_no_panic|apply vlq_long_start_progress]. Qed.
+Proof. exact vlq_long_bounded. Qed.
 Print Assumptions avro_vlq_bounded.
 
 (* read_varint (AvroCursor): the one-byte fast path, the 10-byte array path (additive accumulation with the continuation
@@ -124,7 +124,7 @@ Print Assumptions avro_block_guards.
 (* the OCF reader loop of the model ends with Ok, Err or the explicit no-progress state, never by fuel or panic *)
 Theorem avro_reader_total : forall sync bs,
   match read_blocks (S (length bs)) sync bs [] with ROk _ | RErr | RHang => True | _ => False end.
-Proof. intros. apply read_blocks_total. apply Nat.lt_succ_diag_r. Qed.
+Proof. exact read_blocks_total_start. Qed.
 Print Assumptions avro_reader_total.
 
 (* INTENDED: the reader loop makes progress on every input.  REFUTED: a block with count 0 and non-empty data *)
@@ -138,11 +138,7 @@ Print Assumptions avro_reader_progress_refuted.
 Theorem ipc_buffer_guard : forall body off len,
   (0 <= body < 2^63)%Z -> (- 2^63 <= off < 2^63)%Z -> (- 2^63 <= len < 2^63)%Z ->
   (buffer_in_bounds body (off, len) = true <-> (0 <= off /\ 0 <= len /\ off + len <= body)%Z).
-Proof.
-  intros body off len Hb Ho Hl. split.
-  - apply buffer_guard_sound; assumption.
-  - intros [H1 [H2 H3]]. apply buffer_guard_complete; try assumption. apply Hb.
-Qed.
+Proof. exact buffer_guard_iff. Qed.
 Print Assumptions ipc_buffer_guard.
 
 (* a field whose walk passes consumed exactly the nodes and buffers its type prescribes, all buffers inside the body *)
@@ -153,6 +149,13 @@ Theorem ipc_cursor_walk_sound : forall t body s s',
                 Forall (fun b => buffer_in_bounds body b = true) ub.
 Proof. exact walk_sound. Qed.
 Print Assumptions ipc_cursor_walk_sound.
+
+(* ... and for a node that declares nulls the validity buffer covers the node length *)
+Theorem ipc_validity_guard : forall body n vb b2 s',
+  walk FPrim body {| nodes := [n]; bufs := [vb; b2] |} = (Pass, s') -> (0 < snd n)%Z ->
+  (as_usize (fst n) <= 8 * as_usize (snd vb))%Z.
+Proof. exact walk_prim_validity. Qed.
+Print Assumptions ipc_validity_guard.
 
 (* INTENDED: an out-of-bounds buffer is an error.  In the pinned code it is a panic (assert in Buffer::slice_with_length) *)
 Theorem ipc_out_of_bounds_is_error_refuted :
